@@ -149,10 +149,10 @@ def definition_line(rng):
     if k == 3:
         return "|%s| = '%s'" % (rng.choice(BLOCK_NAMES),
                                 rng.choice(['<section>|</section>', '<p class="x">|</p> +spans', '-macros', '+skip', 'junk',
-                                            '<div>|</div> -container +spans', '', '+', '-', '<a>|</a>+skip', '<b title="{m1}">|</b>',
+                                            '<div>|</div> -container +spans', '', '+', '-', '<a>|</a>+skip', '<b title="{m1}">|</b>', '+container', '<div>|</div> +container',
                                             '+skipx', 'x+skip', '-specials +macros', '<i>|</i>  -spans']))
     if k == 4:
-        return ".%s = '%s'" % (rng.choice(['safeMode', 'htmlReplacement', 'reset', 'bogus']),
+        return ".%s = '%s'" % (rng.choice(['safeMode', 'htmlReplacement', 'reset', 'bogus', 'callback', 'init', 'errorCallback']),
                                rng.choice(['0', '1', '5', '15', '16', '-1', 'x', 'true', 'false', '<i>r</i>', '', '{m1}', '{m2|1|5}']))
     return '// ' + words(rng)
 
